@@ -156,6 +156,12 @@ let run (op : string) (f : string list) : string =
   | ("rootless_includes" | "rootless_includes_pinned"), uid :: comps ->
       ok [tf (M.rootless_includes (op = "rootless_includes") (to_str uid) (List.map to_str comps))]
   | "is_url", [s] -> ok [tf (M.is_url (to_str s))]
+  | "c07_lists", [w] ->
+      let w = bare w in
+      if w = "managed" then ok (List.map of_str M.mANAGED) else
+      let t = (match w with "container" -> M.TContainer | "kube" -> M.TKube | "pod" -> M.TPod | "build" -> M.TBuild
+                          | "image" -> M.TImage | "network" -> M.TNetwork | _ -> M.TVolume) in
+      ok (List.concat_map (fun (a, b) -> [of_str a; of_str b]) (M.a_of t))
   | "cleaned", [p] -> ok [of_str (M.cleaned (to_str p))]
   | "absolute_from", [p; r] -> (match M.absolute_from (to_str p) (to_str r) with Some x -> ok [of_str x] | None -> "CWD")
   | "absolute_from_unit", [p; u] -> (match M.absolute_from_unit (to_str p) (to_str u) with Some x -> ok [of_str x] | None -> "CWD")
